@@ -160,11 +160,6 @@ class P:
             op = self.peek()[1]
             self.i += 1
             x = self.unary()
-            # a sign directly in front of a numeric literal is part of the literal
-            if x[0] == "lit" and x[1] == "NUM" and x[3] == s + 1:
-                return ("lit", "NUM", [], s, self.i)
-            if x[0] == "lit" and x[1] == "INTERVAL" and x[3] == s + 1:
-                return ("lit", "INTERVAL", [], s, self.i)
             return ("neg", op, [x], s, self.i)
         return self.primary()
 
